@@ -37,7 +37,7 @@ def load_known():
 
 def match_known(known, prop, ob):
     for k in known.get("findings", []):
-        if k["property"] != prop:
+        if k["property"] != prop and prop not in k.get("also_reported_under", []):
             continue
         if k.get("job") and k["job"] != ob["job"]:
             continue
